@@ -1,7 +1,1420 @@
-//! C05 harness (stub until built)
+//! C05: reflection metadata agrees with the emitted source.
+//!
+//! request : C05.meta \t <dx|vk|vkba|msl> \t <all|name=P|nopipeline> \t <nstatics> \t <resources> \t <helpers> \t <entries> \t <pipes>
+//!   resource : name:kind:group:arr:ss:bl:st   kind = ObjectType name | cbuffer; group = - | n; arr = - | n | u (unsized);
+//!                                             ss (static sampler), bl (bindless) = 0 | 1; st = e (extern) | s (static)
+//!   helper   : name:uses:calls:statics        comma separated indices (uses -> resources, calls -> earlier helpers)
+//!   entry    : name:stage:uses:calls:statics:x.y.z|-
+//!   pipe     : name:dflt|-:entry indices
+//!   The request is self-contained: the shader file is rendered from it (no seed), so shrinking and the witness search
+//!   can edit requests.
+//! observe : per built pipeline, joined by " ## ":
+//!   M[group|group..]   metadata: entries `name=i<slot>|n<offset>:DescriptorType:count|-:b<bindless>:u<used>:s<static sampler>`,
+//!                      `;inl=<slot>/<bytes>` when the group has an inline constant buffer
+//!   A[..]              binding annotations found in the *emitted source* (HLSL: re-parsed with the real rssl lexer+parser;
+//!                      MSL: text scan), `name=>[struct/]annotation text`, sorted
+//!   S[..]              reported stages `Stage:entry:x.y.z|-`
+//!   F[..]              for each reported stage the function of that name found in the emitted source with its
+//!                      numthreads (HLSL) / max_total_threads_per_threadgroup (MSL), or `!missing(name)`
+//! oracle  : independent of the Lean model (see `judge_*`): every metadata entry matches annotation, declared type and
+//!           array length of the declaration with that name; every externally bound declaration has exactly one entry;
+//!           inline constant blocks match; every reported stage names a defined function with the reported size;
+//!           reachable bindings are never reported unused, and on Metal used => reachable (reachability from the
+//!           request's own call graph).
+use crate::compile_util::*;
+use crate::progen;
 use crate::util::*;
+use rssl::ast;
+use std::collections::{BTreeMap, BTreeSet};
 
-pub fn run(_args: &Args, _out: &mut Out) {
-    eprintln!("C05: harness not built yet");
-    std::process::exit(2);
+// ------------------------------------------------------------------------------------------------ case
+
+#[derive(Clone, Copy, PartialEq, Debug)]
+enum ArrLen {
+    No,
+    Sized(u32),
+    Unsized,
+}
+
+#[derive(Clone, Debug)]
+struct XRes {
+    name: String,
+    kind: String,
+    group: Option<u32>,
+    arr: ArrLen,
+    ss: bool,
+    bl: bool,
+    stat: bool,
+}
+
+#[derive(Clone, Debug)]
+struct XFn {
+    name: String,
+    stage: Option<String>,
+    uses: Vec<usize>,
+    calls: Vec<usize>,
+    statics: Vec<usize>,
+    threads: Option<(u32, u32, u32)>,
+}
+
+#[derive(Clone, Debug)]
+struct XPipe {
+    name: String,
+    dflt: Option<u32>,
+    stages: Vec<usize>,
+}
+
+#[derive(Clone, Debug)]
+struct Case {
+    nstatics: usize,
+    res: Vec<XRes>,
+    helpers: Vec<XFn>,
+    entries: Vec<XFn>,
+    pipes: Vec<XPipe>,
+}
+
+const EXTRA_KINDS: &[(&str, &str)] = &[
+    ("RWTexture2DArray", "RWTexture2DArray<float4>"),
+    ("TextureCubeArray", "TextureCubeArray<float4>"),
+    ("RaytracingAccelerationStructure", "RaytracingAccelerationStructure"),
+];
+
+fn type_of_kind(kind: &str) -> Option<&'static str> {
+    progen::RES_KINDS.iter().chain(EXTRA_KINDS.iter()).find(|(k, _)| *k == kind).map(|(_, t)| *t)
+}
+
+fn from_program(p: &progen::Program) -> Case {
+    let f = |f: &progen::Func, stage: Option<&str>, threads| XFn {
+        name: f.name.clone(),
+        stage: stage.map(|s| s.to_string()),
+        uses: f.uses.clone(),
+        calls: f.calls.clone(),
+        statics: f.statics.clone(),
+        threads,
+    };
+    Case {
+        nstatics: p.nstatics,
+        res: p
+            .resources
+            .iter()
+            .map(|r| XRes {
+                name: r.name.clone(),
+                kind: r.kind.clone(),
+                group: r.group,
+                arr: match r.len {
+                    Some(n) => ArrLen::Sized(n),
+                    None => ArrLen::No,
+                },
+                ss: r.static_sampler,
+                bl: r.bindless,
+                stat: false,
+            })
+            .collect(),
+        helpers: p.helpers.iter().map(|h| f(h, None, None)).collect(),
+        entries: p.entries.iter().map(|e| f(&e.func, Some(e.stage), e.threads)).collect(),
+        pipes: p
+            .pipes
+            .iter()
+            .map(|pp| XPipe { name: pp.name.clone(), dflt: pp.default_group, stages: pp.stages.clone() })
+            .collect(),
+    }
+}
+
+fn join_idx(v: &[usize]) -> String {
+    v.iter().map(|x| x.to_string()).collect::<Vec<_>>().join(",")
+}
+
+fn opt_u32(v: Option<u32>) -> String {
+    v.map(|x| x.to_string()).unwrap_or_else(|| "-".into())
+}
+
+fn threads_str(t: Option<(u32, u32, u32)>) -> String {
+    match t {
+        Some((x, y, z)) => format!("{}.{}.{}", x, y, z),
+        None => "-".into(),
+    }
+}
+
+impl Case {
+    fn encode(&self) -> String {
+        let rs: Vec<String> = self
+            .res
+            .iter()
+            .map(|r| {
+                format!(
+                    "{}:{}:{}:{}:{}:{}:{}",
+                    r.name,
+                    r.kind,
+                    opt_u32(r.group),
+                    match r.arr {
+                        ArrLen::No => "-".to_string(),
+                        ArrLen::Sized(n) => n.to_string(),
+                        ArrLen::Unsized => "u".to_string(),
+                    },
+                    r.ss as u8,
+                    r.bl as u8,
+                    if r.stat { "s" } else { "e" }
+                )
+            })
+            .collect();
+        let hs: Vec<String> = self
+            .helpers
+            .iter()
+            .map(|h| format!("{}:{}:{}:{}", h.name, join_idx(&h.uses), join_idx(&h.calls), join_idx(&h.statics)))
+            .collect();
+        let es: Vec<String> = self
+            .entries
+            .iter()
+            .map(|e| {
+                format!(
+                    "{}:{}:{}:{}:{}:{}",
+                    e.name,
+                    e.stage.clone().unwrap_or_default(),
+                    join_idx(&e.uses),
+                    join_idx(&e.calls),
+                    join_idx(&e.statics),
+                    threads_str(e.threads)
+                )
+            })
+            .collect();
+        let ps: Vec<String> =
+            self.pipes.iter().map(|p| format!("{}:{}:{}", p.name, opt_u32(p.dflt), join_idx(&p.stages))).collect();
+        format!("{}\t{}\t{}\t{}\t{}", self.nstatics, rs.join(";"), hs.join(";"), es.join(";"), ps.join(";"))
+    }
+
+    fn decode(f: &[&str]) -> Option<Case> {
+        fn idx(s: &str) -> Option<Vec<usize>> {
+            if s.is_empty() {
+                return Some(Vec::new());
+            }
+            s.split(',').map(|x| x.parse().ok()).collect()
+        }
+        fn items(s: &str) -> Vec<&str> {
+            if s.is_empty() { Vec::new() } else { s.split(';').collect() }
+        }
+        fn optn(s: &str) -> Option<Option<u32>> {
+            if s == "-" { Some(None) } else { s.parse().ok().map(Some) }
+        }
+        if f.len() != 5 {
+            return None;
+        }
+        let nstatics = f[0].parse().ok()?;
+        let mut res = Vec::new();
+        for it in items(f[1]) {
+            let p: Vec<&str> = it.split(':').collect();
+            if p.len() != 7 {
+                return None;
+            }
+            type_of_kind(p[1])?;
+            res.push(XRes {
+                name: p[0].to_string(),
+                kind: p[1].to_string(),
+                group: optn(p[2])?,
+                arr: match p[3] {
+                    "-" => ArrLen::No,
+                    "u" => ArrLen::Unsized,
+                    n => ArrLen::Sized(n.parse().ok()?),
+                },
+                ss: p[4] == "1",
+                bl: p[5] == "1",
+                stat: p[6] == "s",
+            });
+        }
+        let mut helpers = Vec::new();
+        for it in items(f[2]) {
+            let p: Vec<&str> = it.split(':').collect();
+            if p.len() != 4 {
+                return None;
+            }
+            helpers.push(XFn {
+                name: p[0].to_string(),
+                stage: None,
+                uses: idx(p[1])?,
+                calls: idx(p[2])?,
+                statics: idx(p[3])?,
+                threads: None,
+            });
+        }
+        let mut entries = Vec::new();
+        for it in items(f[3]) {
+            let p: Vec<&str> = it.split(':').collect();
+            if p.len() != 6 {
+                return None;
+            }
+            let threads = if p[5] == "-" {
+                None
+            } else {
+                let t: Vec<u32> = p[5].split('.').filter_map(|x| x.parse().ok()).collect();
+                if t.len() != 3 {
+                    return None;
+                }
+                Some((t[0], t[1], t[2]))
+            };
+            if !["Compute", "Vertex", "Pixel", "Mesh", "Task"].contains(&p[1]) {
+                return None;
+            }
+            entries.push(XFn {
+                name: p[0].to_string(),
+                stage: Some(p[1].to_string()),
+                uses: idx(p[2])?,
+                calls: idx(p[3])?,
+                statics: idx(p[4])?,
+                threads,
+            });
+        }
+        let mut pipes = Vec::new();
+        for it in items(f[4]) {
+            let p: Vec<&str> = it.split(':').collect();
+            if p.len() != 3 {
+                return None;
+            }
+            pipes.push(XPipe { name: p[0].to_string(), dflt: optn(p[1])?, stages: idx(p[2])? });
+        }
+        let c = Case { nstatics, res, helpers, entries, pipes };
+        // indices must be in range (requests may come from the shrinker / the search)
+        let nr = c.res.len();
+        for (i, h) in c.helpers.iter().enumerate() {
+            if h.uses.iter().any(|u| *u >= nr) || h.calls.iter().any(|k| *k >= i) || h.statics.iter().any(|k| *k >= nstatics) {
+                return None;
+            }
+        }
+        for e in &c.entries {
+            if e.uses.iter().any(|u| *u >= nr)
+                || e.calls.iter().any(|k| *k >= c.helpers.len())
+                || e.statics.iter().any(|k| *k >= nstatics)
+            {
+                return None;
+            }
+        }
+        for p in &c.pipes {
+            if p.stages.is_empty() || p.stages.iter().any(|k| *k >= c.entries.len()) {
+                return None;
+            }
+        }
+        Some(c)
+    }
+
+    /// helpers that share a name are overloads told apart by their number of int parameters
+    fn overload_arity(&self, h: usize) -> usize {
+        self.helpers[..h].iter().filter(|x| x.name == self.helpers[h].name).count()
+    }
+
+    fn body(&self, f: &XFn) -> String {
+        let mut s = String::new();
+        for r in &f.uses {
+            let res = &self.res[*r];
+            if res.kind == "cbuffer" {
+                s.push_str(&format!("    {}_v;\n", res.name));
+            } else if res.arr != ArrLen::No {
+                s.push_str(&format!("    {}[0u];\n", res.name));
+            } else {
+                s.push_str(&format!("    {};\n", res.name));
+            }
+        }
+        for h in &f.calls {
+            let zeros: Vec<&str> = (0..self.overload_arity(*h)).map(|_| "0").collect();
+            s.push_str(&format!("    {}({});\n", self.helpers[*h].name, zeros.join(", ")));
+        }
+        for k in &f.statics {
+            s.push_str(&format!("    s_value{} = s_value{} + 1;\n", k, k));
+        }
+        s
+    }
+
+    /// same layout as progen::render (struct CbS; statics; two structs + groupshared payload; resources; helpers;
+    /// entry points; pipelines)
+    fn render(&self) -> String {
+        let mut s = String::new();
+        s.push_str("struct CbS { float4 v; };\n");
+        for k in 0..self.nstatics {
+            s.push_str(&format!("static int s_value{} = 0;\n", k));
+        }
+        s.push_str("struct MeshVertex { float4 position : SV_Position; };\nstruct TaskPayload { uint start_location; };\ngroupshared TaskPayload lds_payload;\n");
+        for r in &self.res {
+            if r.bl {
+                s.push_str("[[rssl::bindless]] ");
+            }
+            if let Some(g) = r.group {
+                s.push_str(&format!("[[rssl::bind_group({})]] ", g));
+            }
+            if r.kind == "cbuffer" {
+                s.push_str(&format!("cbuffer {} {{ float4 {}_v; }}\n", r.name, r.name));
+                continue;
+            }
+            if r.stat {
+                s.push_str("static ");
+            }
+            s.push_str(&format!("{} {}", type_of_kind(&r.kind).unwrap(), r.name));
+            match r.arr {
+                ArrLen::No => {}
+                ArrLen::Sized(n) => s.push_str(&format!("[{}]", n)),
+                ArrLen::Unsized => s.push_str("[]"),
+            }
+            if r.ss {
+                s.push_str(" = StaticSampler { Filter = MIN_MAG_MIP_LINEAR; }");
+            }
+            s.push_str(";\n");
+        }
+        for (i, h) in self.helpers.iter().enumerate() {
+            let params: Vec<String> = (0..self.overload_arity(i)).map(|k| format!("int p{}", k)).collect();
+            s.push_str(&format!("void {}({}) {{\n{}}}\n", h.name, params.join(", "), self.body(h)));
+        }
+        // a mesh entry takes a payload when some pipeline pairs it with a task shader
+        let with_payload: BTreeSet<usize> = self
+            .pipes
+            .iter()
+            .filter(|p| p.stages.iter().any(|k| self.entries[*k].stage.as_deref() == Some("Task")))
+            .flat_map(|p| p.stages.iter().copied())
+            .collect();
+        for (k, e) in self.entries.iter().enumerate() {
+            let b = self.body(e);
+            let n = &e.name;
+            let t = e.threads.unwrap_or((64, 1, 1));
+            match e.stage.as_deref().unwrap_or("") {
+                "Compute" => s.push_str(&format!(
+                    "[numthreads({}, {}, {})]\nvoid {}(uint3 dtid : SV_DispatchThreadID) {{\n{}}}\n",
+                    t.0, t.1, t.2, n, b
+                )),
+                "Vertex" => s.push_str(&format!(
+                    "void {}(uint vid : SV_VertexID, out float4 o_pos : SV_Position) {{\n{}    o_pos = float4(0, 0, 0, 1);\n}}\n",
+                    n, b
+                )),
+                "Pixel" => s.push_str(&format!(
+                    "float4 {}(float4 i_pos : SV_Position) : SV_Target0 {{\n{}    return float4(0, 0, 0, 0);\n}}\n",
+                    n, b
+                )),
+                "Task" => s.push_str(&format!(
+                    "[numthreads({}, {}, {})]\nvoid {}(uint3 dtid : SV_DispatchThreadID) {{\n{}    lds_payload.start_location = dtid.x;\n    DispatchMesh(4u, 1u, 1u, lds_payload);\n}}\n",
+                    t.0, t.1, t.2, n, b
+                )),
+                _ => {
+                    let payload = if with_payload.contains(&k) { "    in payload TaskPayload data,\n" } else { "" };
+                    s.push_str(&format!(
+                        "[numthreads({}, {}, {})]\n[outputtopology(\"triangle\")]\nvoid {}(\n    uint3 dtid : SV_DispatchThreadID,\n{}    out vertices MeshVertex o_vertices[64],\n    out indices uint3 o_triangles[64]\n) {{\n{}    SetMeshOutputCounts(64, 64);\n    MeshVertex vertex;\n    vertex.position = float4(0, 0, 0, 1);\n    o_vertices[dtid.x] = vertex;\n    o_triangles[dtid.x] = uint3(0, 1, 2);\n}}\n",
+                        t.0, t.1, t.2, n, payload, b
+                    ));
+                }
+            }
+        }
+        for pipe in &self.pipes {
+            s.push_str(&format!("Pipeline {}\n{{\n", pipe.name));
+            for k in &pipe.stages {
+                let e = &self.entries[*k];
+                s.push_str(&format!("    {}Shader = {};\n", e.stage.as_deref().unwrap_or(""), e.name));
+            }
+            if let Some(g) = pipe.dflt {
+                s.push_str(&format!("    DefaultBindGroup = {};\n", g));
+            }
+            s.push_str("}\n");
+        }
+        s
+    }
+
+    /// resources some stage entry point of the pipeline can reach (the request's own call graph)
+    fn reachable(&self, pipe: Option<&XPipe>) -> BTreeSet<usize> {
+        let mut seen_h = BTreeSet::new();
+        let mut out = BTreeSet::new();
+        let mut stack: Vec<usize> = Vec::new();
+        if let Some(p) = pipe {
+            for k in &p.stages {
+                let e = &self.entries[*k];
+                out.extend(e.uses.iter().copied());
+                stack.extend(e.calls.iter().copied());
+            }
+        }
+        while let Some(h) = stack.pop() {
+            if !seen_h.insert(h) {
+                continue;
+            }
+            out.extend(self.helpers[h].uses.iter().copied());
+            stack.extend(self.helpers[h].calls.iter().copied());
+        }
+        out
+    }
+}
+
+// ------------------------------------------------------------------------------------------------ real compile
+
+enum Raw {
+    Ok(Vec<rssl::CompiledPipeline>),
+    Err(String),
+    Panic(String),
+}
+
+fn compile_raw(src: &str, target: Tgt, mode: &Mode) -> Raw {
+    let r = guard(|| {
+        let mut inc = MemFiles(vec![("main.rssl".to_string(), src.to_string())]);
+        let mut args = rssl::CompileArgs::new("main.rssl", &mut inc, target.target())
+            .support_buffer_address(target.buffer_address());
+        match mode {
+            Mode::All => {}
+            Mode::Named(n) => args = args.pipeline_name(Some(n.as_str())),
+            Mode::NoPipeline => args = args.no_pipeline_mode(),
+        }
+        rssl::compile(args).map_err(|e| format!("{}", e))
+    });
+    match r {
+        Ok(Ok(v)) => Raw::Ok(v),
+        Ok(Err(e)) => Raw::Err(e),
+        Err(p) => Raw::Panic(p),
+    }
+}
+
+// ------------------------------------------------------------------------------------------------ what the emitted source declares
+
+#[derive(Clone, Debug, Default)]
+struct SrcDecl {
+    name: String,
+    /// struct the declaration is a member of (InlineDescriptor<n> / ArgumentBuffer<n>), if any
+    in_struct: Option<String>,
+    /// canonical annotation texts found on the declaration
+    annots: Vec<String>,
+    /// (register letter, index, space) / (index, set) / offset / id
+    reg: Option<(char, u32, u32)>,
+    vk: Option<(u32, u32)>,
+    offset: Option<u32>,
+    id: Option<u32>,
+    /// head of the declared type, e.g. `Texture2D`, `cbuffer`, `uint64_t`, `metal::texture2d`
+    ty: String,
+    arr: Option<ArrLen>,
+    is_static: bool,
+    /// `= g_inlineDescriptor<n>.<member>`
+    inline_init: Option<(String, String)>,
+}
+
+#[derive(Clone, Debug, Default)]
+struct SrcFunc {
+    name: String,
+    has_body: bool,
+    /// numthreads literal triple (HLSL) or the total of max_total_threads_per_threadgroup (MSL, in .0)
+    threads: Option<(u64, u64, u64)>,
+    /// MSL: stage attribute (`kernel`, `vertex`, ..) and `[[buffer(i)]]` parameters (struct name, param name, i)
+    stage_attr: Option<String>,
+    buffers: Vec<(String, String, u32)>,
+}
+
+#[derive(Default, Debug)]
+struct Emitted {
+    decls: Vec<SrcDecl>,
+    funcs: Vec<SrcFunc>,
+    structs: Vec<String>,
+}
+
+fn parse_hlsl(src: &str) -> Result<ast::Module, String> {
+    use rssl::text::CompileErrorExt;
+    let mut sm = rssl::text::SourceManager::new();
+    let mut inc = MemFiles(vec![("out.hlsl".to_string(), src.to_string())]);
+    let tokens = match rssl::preprocess::preprocess("out.hlsl", &mut sm, &mut inc, &[("__HLSL_VERSION", "2021")]) {
+        Ok(t) => t,
+        Err(e) => return Err(format!("preprocess: {}", e.display(&sm))),
+    };
+    let tokens = rssl::preprocess::prepare_tokens(&tokens);
+    match rssl::parser::parse(&tokens) {
+        Ok(m) => Ok(m),
+        Err(e) => Err(format!("parse: {}", e.display(&sm))),
+    }
+}
+
+fn lit_u64(e: &ast::Expression) -> Option<u64> {
+    match e {
+        ast::Expression::Literal(ast::Literal::IntUntyped(v))
+        | ast::Expression::Literal(ast::Literal::IntUnsigned32(v))
+        | ast::Expression::Literal(ast::Literal::IntUnsigned64(v)) => Some(*v),
+        ast::Expression::Literal(ast::Literal::IntSigned64(v)) if *v >= 0 => Some(*v as u64),
+        _ => None,
+    }
+}
+
+fn attr_name(a: &ast::Attribute) -> String {
+    a.name.iter().map(|n| n.node.clone()).collect::<Vec<_>>().join("::")
+}
+
+fn attr_args(a: &ast::Attribute) -> Option<Vec<u64>> {
+    a.arguments.iter().map(|e| lit_u64(&e.node)).collect()
+}
+
+fn declarator_name(d: &ast::Declarator) -> (Option<String>, Option<ArrLen>) {
+    match d {
+        ast::Declarator::Empty => (None, None),
+        ast::Declarator::Identifier(id, _) => (id.identifiers.last().map(|s| s.node.clone()), None),
+        ast::Declarator::Pointer(p) => declarator_name(&p.inner),
+        ast::Declarator::Reference(r) => declarator_name(&r.inner),
+        ast::Declarator::Array(a) => {
+            let (n, _) = declarator_name(&a.inner);
+            let len = match &a.array_size {
+                None => ArrLen::Unsized,
+                Some(e) => match lit_u64(&e.node) {
+                    Some(v) => ArrLen::Sized(v as u32),
+                    None => ArrLen::Unsized,
+                },
+            };
+            (n, Some(len))
+        }
+    }
+}
+
+fn type_head(t: &ast::Type) -> String {
+    t.layout.0.identifiers.iter().map(|s| s.node.clone()).collect::<Vec<_>>().join("::")
+}
+
+fn register_text(r: &ast::Register) -> String {
+    let mut s = String::from(" : register(");
+    if let Some(slot) = &r.slot {
+        s.push_str(&format!("{}{}", slot.slot_type, slot.index));
+    }
+    if r.slot.is_some() && r.space.is_some() {
+        s.push_str(", ");
+    }
+    if let Some(sp) = r.space {
+        s.push_str(&format!("space{}", sp));
+    }
+    s.push(')');
+    s
+}
+
+fn attr_text(a: &ast::Attribute, args: &[u64]) -> String {
+    let mut s = format!("[[{}", attr_name(a));
+    if !args.is_empty() {
+        s.push('(');
+        s.push_str(&args.iter().map(|v| v.to_string()).collect::<Vec<_>>().join(", "));
+        s.push(')');
+    }
+    s.push_str("]]");
+    s
+}
+
+fn apply_annotations(d: &mut SrcDecl, locs: &[ast::LocationAnnotation], attrs: &[ast::Attribute]) {
+    for l in locs {
+        if let ast::LocationAnnotation::Register(r) = l {
+            d.annots.push(register_text(r));
+            if let Some(slot) = &r.slot {
+                let letter = format!("{}", slot.slot_type).chars().next().unwrap_or('?');
+                d.reg = Some((letter, slot.index, r.space.unwrap_or(0)));
+            }
+        }
+    }
+    for a in attrs {
+        let n = attr_name(a);
+        if let Some(args) = attr_args(a) {
+            if n == "vk::binding" && (args.len() == 1 || args.len() == 2) {
+                d.annots.push(attr_text(a, &args));
+                d.vk = Some((args[0] as u32, args.get(1).copied().unwrap_or(0) as u32));
+            } else if n == "vk::offset" && args.len() == 1 {
+                d.annots.push(attr_text(a, &args));
+                d.offset = Some(args[0] as u32);
+            }
+        }
+    }
+}
+
+fn walk_hlsl(defs: &[ast::RootDefinition], out: &mut Emitted) {
+    for def in defs {
+        match def {
+            ast::RootDefinition::Namespace(_, inner) => walk_hlsl(inner, out),
+            ast::RootDefinition::Struct(sd) => {
+                out.structs.push(sd.name.node.clone());
+                if sd.name.node.starts_with("InlineDescriptor") {
+                    for m in &sd.members {
+                        if let ast::StructEntry::Variable(v) = m {
+                            for idecl in &v.defs {
+                                let (name, arr) = declarator_name(&idecl.declarator);
+                                let mut d = SrcDecl {
+                                    name: name.unwrap_or_default(),
+                                    in_struct: Some(sd.name.node.clone()),
+                                    ty: type_head(&v.ty),
+                                    arr,
+                                    ..Default::default()
+                                };
+                                apply_annotations(&mut d, &idecl.location_annotations, &v.attributes);
+                                out.decls.push(d);
+                            }
+                        }
+                    }
+                }
+            }
+            ast::RootDefinition::ConstantBuffer(cb) => {
+                let mut d = SrcDecl { name: cb.name.node.clone(), ty: "cbuffer".into(), ..Default::default() };
+                apply_annotations(&mut d, &cb.location_annotations, &cb.attributes);
+                out.decls.push(d);
+            }
+            ast::RootDefinition::GlobalVariable(gv) => {
+                let is_static = gv.global_type.modifiers.modifiers.iter().any(|m| {
+                    matches!(m.node, ast::TypeModifier::Static | ast::TypeModifier::GroupShared)
+                });
+                for idecl in &gv.defs {
+                    let (name, arr) = declarator_name(&idecl.declarator);
+                    let mut d = SrcDecl {
+                        name: name.unwrap_or_default(),
+                        ty: type_head(&gv.global_type),
+                        arr,
+                        is_static,
+                        ..Default::default()
+                    };
+                    apply_annotations(&mut d, &idecl.location_annotations, &gv.attributes);
+                    if let Some(ast::Initializer::Expression(e)) = &idecl.init {
+                        if let ast::Expression::Member(obj, member) = &e.node {
+                            if let ast::Expression::Identifier(id) = &obj.node {
+                                if let (Some(o), Some(m)) = (id.identifiers.last(), member.identifiers.last()) {
+                                    d.inline_init = Some((o.node.clone(), m.node.clone()));
+                                }
+                            }
+                        }
+                    }
+                    out.decls.push(d);
+                }
+            }
+            ast::RootDefinition::Function(f) => {
+                let mut sf = SrcFunc { name: f.name.node.clone(), has_body: f.body.is_some(), ..Default::default() };
+                for a in &f.attributes {
+                    if attr_name(a) == "numthreads" {
+                        if let Some(args) = attr_args(a) {
+                            if args.len() == 3 {
+                                sf.threads = Some((args[0], args[1], args[2]));
+                            }
+                        }
+                    }
+                }
+                out.funcs.push(sf);
+            }
+            _ => {}
+        }
+    }
+}
+
+/// light scan of the emitted Metal source: argument buffer structs and stage entry functions
+fn scan_msl(src: &str) -> Emitted {
+    let mut out = Emitted::default();
+    let lines: Vec<&str> = src.lines().collect();
+    let mut i = 0;
+    while i < lines.len() {
+        let l = lines[i];
+        if let Some(name) = l.strip_prefix("struct ") {
+            let name = name.trim().to_string();
+            out.structs.push(name.clone());
+            if name.starts_with("ArgumentBuffer") {
+                i += 1;
+                while i < lines.len() && !lines[i].starts_with("};") {
+                    let m = lines[i].trim();
+                    if let Some(rest) = m.strip_prefix("[[id(") {
+                        if let Some(close) = rest.find(")]]") {
+                            let id: Option<u32> = rest[..close].parse().ok();
+                            let decl = rest[close + 3..].trim().trim_end_matches(';').trim();
+                            // last identifier = member name, before it = type
+                            let cut = decl.rfind(|c: char| !(c.is_alphanumeric() || c == '_')).map(|k| k + 1).unwrap_or(0);
+                            let (ty, nm) = decl.split_at(cut);
+                            let mut ty = ty.trim().trim_end_matches('&').trim().to_string();
+                            for pre in ["constant ", "const ", "device "] {
+                                if let Some(t) = ty.strip_prefix(pre) {
+                                    ty = t.to_string();
+                                }
+                            }
+                            let mut arr = None;
+                            if let Some(inner) = ty.strip_prefix("metal::array<") {
+                                // metal::array<T, n>
+                                if let Some(k) = inner.rfind(',') {
+                                    let n: Option<u32> = inner[k + 1..].trim().trim_end_matches('>').trim().parse().ok();
+                                    arr = n.map(ArrLen::Sized);
+                                    let mut t = inner[..k].trim().to_string();
+                                    if let Some(tt) = t.strip_prefix("const ") {
+                                        t = tt.to_string();
+                                    }
+                                    ty = t;
+                                }
+                            }
+                            out.decls.push(SrcDecl {
+                                name: nm.to_string(),
+                                in_struct: Some(name.clone()),
+                                annots: vec![format!("[[id({})]]", id.map(|v| v.to_string()).unwrap_or_else(|| "?".into()))],
+                                id,
+                                ty,
+                                arr,
+                                ..Default::default()
+                            });
+                        }
+                    }
+                    i += 1;
+                }
+            }
+        } else if ["[[kernel]]", "[[vertex]]", "[[fragment]]", "[[object]]", "[[mesh]]"].contains(&l.trim()) {
+            let stage_attr = l.trim().trim_start_matches("[[").trim_end_matches("]]").to_string();
+            let mut threads = None;
+            i += 1;
+            while i < lines.len() && lines[i].starts_with("[[") {
+                if let Some(rest) = lines[i].strip_prefix("[[max_total_threads_per_threadgroup(") {
+                    if let Some(expr) = rest.strip_suffix(")]]") {
+                        let parts: Option<Vec<u64>> = expr
+                            .split('*')
+                            .map(|p| p.trim().trim_end_matches('u').parse::<u64>().ok())
+                            .collect();
+                        if let Some(p) = parts {
+                            threads = Some((p.iter().product(), 0, 0));
+                        }
+                    }
+                }
+                i += 1;
+            }
+            if i < lines.len() {
+                let sig = lines[i];
+                if let Some(open) = sig.find('(') {
+                    let name = sig[..open].rsplit(' ').next().unwrap_or("").to_string();
+                    let mut buffers = Vec::new();
+                    for param in sig[open + 1..].split(',') {
+                        if let Some(k) = param.find("[[buffer(") {
+                            let n: Option<u32> = param[k + 9..].split(')').next().and_then(|v| v.parse().ok());
+                            let head: Vec<&str> = param[..k].split_whitespace().collect();
+                            // constant ArgumentBuffer0& set0
+                            if head.len() >= 3 {
+                                buffers.push((
+                                    head[head.len() - 2].trim_end_matches('&').to_string(),
+                                    head[head.len() - 1].to_string(),
+                                    n.unwrap_or(u32::MAX),
+                                ));
+                            }
+                        }
+                    }
+                    out.funcs.push(SrcFunc {
+                        name,
+                        has_body: sig.trim_end().ends_with('{'),
+                        threads,
+                        stage_attr: Some(stage_attr),
+                        buffers,
+                    });
+                }
+            }
+        }
+        i += 1;
+    }
+    out
+}
+
+// ------------------------------------------------------------------------------------------------ oracle tables (HLSL / MSL semantics, written independently of the compiler's tables)
+
+/// descriptor types a declaration of the given emitted type may be reported as
+fn allowed_desc(ty: &str, msl: bool) -> &'static [&'static str] {
+    if !msl {
+        match ty {
+            "cbuffer" | "ConstantBuffer" => &["ConstantBuffer"],
+            "ByteAddressBuffer" => &["ByteBuffer", "BufferAddress"],
+            "RWByteAddressBuffer" => &["RwByteBuffer", "RwBufferAddress"],
+            "uint64_t" => &["BufferAddress", "RwBufferAddress"],
+            "StructuredBuffer" => &["StructuredBuffer"],
+            "RWStructuredBuffer" => &["RwStructuredBuffer"],
+            "Buffer" => &["TexelBuffer"],
+            "RWBuffer" => &["RwTexelBuffer"],
+            "Texture2D" => &["Texture2d"],
+            "Texture2DArray" => &["Texture2dArray"],
+            "RWTexture2D" => &["RwTexture2d"],
+            "RWTexture2DArray" => &["RwTexture2dArray"],
+            "TextureCube" => &["TextureCube"],
+            "TextureCubeArray" => &["TextureCubeArray"],
+            "Texture3D" => &["Texture3d"],
+            "RWTexture3D" => &["RwTexture3d"],
+            "RaytracingAccelerationStructure" => &["RaytracingAccelerationStructure"],
+            "SamplerState" => &["SamplerState"],
+            "SamplerComparisonState" => &["SamplerComparisonState"],
+            _ => &[],
+        }
+    } else {
+        let t = ty.split('<').next().unwrap_or("");
+        let rw = ty.contains("access::read_write");
+        match t {
+            "helper::ByteAddressBuffer" => &["ByteBuffer", "BufferAddress"],
+            "helper::RWByteAddressBuffer" => &["RwByteBuffer", "RwBufferAddress"],
+            "helper::StructuredBuffer" => &["StructuredBuffer"],
+            "helper::RWStructuredBuffer" => &["RwStructuredBuffer"],
+            "metal::texture_buffer" => if rw { &["RwTexelBuffer"] } else { &["TexelBuffer"] },
+            "metal::texture2d" => if rw { &["RwTexture2d"] } else { &["Texture2d"] },
+            "metal::texture2d_array" => if rw { &["RwTexture2dArray"] } else { &["Texture2dArray"] },
+            "metal::texturecube" => &["TextureCube"],
+            "metal::texturecube_array" => &["TextureCubeArray"],
+            "metal::texture3d" => if rw { &["RwTexture3d"] } else { &["Texture3d"] },
+            "metal::sampler" => &["SamplerState", "SamplerComparisonState"],
+            "metal::raytracing::instance_acceleration_structure" => &["RaytracingAccelerationStructure"],
+            // `constant T&` members: constant buffers
+            _ => &["ConstantBuffer"],
+        }
+    }
+}
+
+/// D3D register class of a descriptor type
+fn register_class(desc: &str) -> char {
+    match desc {
+        "ConstantBuffer" | "PushConstants" | "InlineConstants" => 'b',
+        "SamplerState" | "SamplerComparisonState" => 's',
+        d if d.starts_with("Rw") => 'u',
+        _ => 't',
+    }
+}
+
+/// is a global of this emitted HLSL type a resource that must be bound from outside
+fn is_resource_type(ty: &str) -> bool {
+    ty != "uint64_t" && !allowed_desc(ty, false).is_empty()
+}
+
+// ------------------------------------------------------------------------------------------------ observation + oracle
+
+struct Fail {
+    class: &'static str,
+    detail: String,
+}
+
+/// failure classes that are recorded findings; anything else is reported first
+const RECORDED: &[&str] = &["entry-renamed", "msl-name-renamed", "unsized-array-unbound", "static-object-bound"];
+
+fn show_meta(m: &rssl::ir::export::PipelineDescription) -> String {
+    use rssl::ir::export::ApiLocation;
+    let groups: Vec<String> = m
+        .bind_groups
+        .iter()
+        .map(|g| {
+            let es: Vec<String> = g
+                .bindings
+                .iter()
+                .map(|b| {
+                    format!(
+                        "{}={}:{:?}:{}:b{}:u{}:s{}",
+                        b.name,
+                        match b.api_binding {
+                            ApiLocation::Index(i) => format!("i{}", i),
+                            ApiLocation::InlineConstant(o) => format!("n{}", o),
+                        },
+                        b.descriptor_type,
+                        opt_u32(b.descriptor_count),
+                        b.is_bindless as u8,
+                        b.is_used as u8,
+                        b.static_sampler.is_some() as u8
+                    )
+                })
+                .collect();
+            let inl = match &g.inline_constants {
+                Some(c) => format!(";inl={}/{}", c.api_location, c.size_in_bytes),
+                None => String::new(),
+            };
+            format!("{}{}", es.join(","), inl)
+        })
+        .collect();
+    groups.join("|")
+}
+
+fn name_class(name: &str) -> &'static str {
+    if name.starts_with("g_r") || name.starts_with("cs_") || name.starts_with("vs_") || name.starts_with("ps_") {
+        "plain"
+    } else {
+        "special"
+    }
+}
+
+/// Judge one compiled pipeline. Returns (observation, failures).
+fn judge(case: &Case, tgt: Tgt, pipe: Option<&XPipe>, out: &rssl::CompiledPipeline, hist: &mut Hist) -> (String, Vec<Fail>) {
+    use rssl::ir::export::ApiLocation;
+    let msl = tgt == Tgt::Msl;
+    let mut fails: Vec<Fail> = Vec::new();
+    let text = String::from_utf8_lossy(&out.data).into_owned();
+    let emitted = if msl {
+        scan_msl(&text)
+    } else {
+        match parse_hlsl(&text) {
+            Ok(m) => {
+                let mut e = Emitted::default();
+                walk_hlsl(&m.root_definitions, &mut e);
+                e
+            }
+            Err(e) => {
+                fails.push(Fail { class: "emitted-source-unparsable", detail: one_line(&e.chars().take(120).collect::<String>()) });
+                Emitted::default()
+            }
+        }
+    };
+    let reach = case.reachable(pipe);
+    let res_by_name: BTreeMap<&str, (usize, &XRes)> = case.res.iter().enumerate().map(|(i, r)| (r.name.as_str(), (i, r))).collect();
+
+    // ---- 1. every metadata entry matches the declaration with that name
+    let mut entries_by_name: BTreeMap<String, u32> = BTreeMap::new();
+    let mut nentries = 0;
+    for (g, group) in out.metadata.bind_groups.iter().enumerate() {
+        let g = g as u32;
+        for b in &group.bindings {
+            nentries += 1;
+            *entries_by_name.entry(b.name.clone()).or_insert(0) += 1;
+            hist.add(&format!("desc={:?}", b.descriptor_type));
+            let desc = format!("{:?}", b.descriptor_type);
+            let source = res_by_name.get(b.name.as_str()).copied();
+            // the declaration in the emitted source
+            let cands: Vec<&SrcDecl> = emitted
+                .decls
+                .iter()
+                .filter(|d| d.name == b.name && !(d.in_struct.is_none() && d.inline_init.is_some()))
+                .collect();
+            if msl && pipe.is_none() {
+                // no-pipeline mode on Metal emits no argument buffers: nothing to compare annotations with
+                hist.add("msl-nopipeline-entry");
+            } else if cands.is_empty() {
+                if msl && source.is_some() {
+                    fails.push(Fail {
+                        class: "msl-name-renamed",
+                        detail: format!("{}: metadata names `{}` but no argument buffer member has that name", name_class(&b.name), b.name),
+                    });
+                } else {
+                    fails.push(Fail { class: "entry-without-declaration", detail: format!("metadata entry `{}` has no declaration in the emitted source", b.name) });
+                }
+                continue;
+            } else if cands.len() > 1 {
+                fails.push(Fail { class: "entry-name-ambiguous", detail: format!("{} declarations named `{}`", cands.len(), b.name) });
+                continue;
+            }
+            if let Some(d) = cands.first() {
+                match b.api_binding {
+                    ApiLocation::Index(i) => {
+                        if msl {
+                            if d.id != Some(i) || d.in_struct.as_deref() != Some(&format!("ArgumentBuffer{}", g)) {
+                                fails.push(Fail { class: "annotation-mismatch", detail: format!("`{}` reported at group {} index {} but emitted as {:?} in {:?}", b.name, g, i, d.annots, d.in_struct) });
+                            }
+                        } else if tgt == Tgt::Dx {
+                            if d.is_static && d.reg.is_none() {
+                                fails.push(Fail { class: "static-object-bound", detail: format!("`{}` is reported at group {} index {} but is a static, unannotated declaration", b.name, g, i) });
+                            } else if d.reg != Some((register_class(&desc), i, g)) || d.vk.is_some() {
+                                fails.push(Fail { class: "annotation-mismatch", detail: format!("`{}` reported as {} at group {} index {} but annotated {:?}", b.name, desc, g, i, d.annots) });
+                            }
+                        } else if d.is_static && d.vk.is_none() {
+                            fails.push(Fail { class: "static-object-bound", detail: format!("`{}` is reported at group {} index {} but is a static, unannotated declaration", b.name, g, i) });
+                        } else if d.vk != Some((i, g)) || d.reg.is_some() {
+                            fails.push(Fail { class: "annotation-mismatch", detail: format!("`{}` reported at group {} index {} but annotated {:?}", b.name, g, i, d.annots) });
+                        }
+                    }
+                    ApiLocation::InlineConstant(o) => {
+                        if d.offset != Some(o) || d.in_struct.as_deref() != Some(&format!("InlineDescriptor{}", g)) {
+                            fails.push(Fail { class: "annotation-mismatch", detail: format!("`{}` reported at group {} inline offset {} but emitted as {:?} in {:?}", b.name, g, o, d.annots, d.in_struct) });
+                        }
+                        // the global that reads it
+                        let reads = emitted.decls.iter().any(|x| {
+                            x.in_struct.is_none() && x.name == b.name && x.inline_init == Some((format!("g_inlineDescriptor{}", g), b.name.clone()))
+                        });
+                        if !reads {
+                            fails.push(Fail { class: "annotation-mismatch", detail: format!("`{}`: no global initialised from g_inlineDescriptor{}.{}", b.name, g, b.name) });
+                        }
+                    }
+                }
+                if !allowed_desc(&d.ty, msl).contains(&desc.as_str()) {
+                    fails.push(Fail { class: "type-mismatch", detail: format!("`{}` declared as {} but reported as {}", b.name, d.ty, desc) });
+                }
+                let want_count = match d.arr {
+                    None | Some(ArrLen::No) => Some(1),
+                    Some(ArrLen::Sized(n)) => Some(n),
+                    Some(ArrLen::Unsized) => None,
+                };
+                if b.descriptor_count != want_count {
+                    fails.push(Fail { class: "count-mismatch", detail: format!("`{}` declared with {:?} but descriptor_count {:?}", b.name, d.arr, b.descriptor_count) });
+                }
+            }
+            // flags that only the input declaration carries
+            if let Some((idx, r)) = source {
+                if b.is_bindless != r.bl {
+                    fails.push(Fail { class: "bindless-mismatch", detail: format!("`{}` bindless {} but reported {}", b.name, r.bl, b.is_bindless) });
+                }
+                let want_ss = r.ss && !msl;
+                if b.static_sampler.is_some() != want_ss {
+                    fails.push(Fail { class: "static-sampler-mismatch", detail: format!("`{}` static sampler {} but reported {}", b.name, want_ss, b.static_sampler.is_some()) });
+                }
+                let reachable = reach.contains(&idx);
+                hist.add(if reachable { "binding=reachable" } else { "binding=unreachable" });
+                if reachable && !b.is_used {
+                    fails.push(Fail { class: "reachable-reported-unused", detail: format!("`{}` is reachable from an entry point but is_used = false", b.name) });
+                }
+                if msl && b.is_used && !reachable {
+                    fails.push(Fail { class: "unreachable-reported-used", detail: format!("`{}` is not reachable from any entry point but is_used = true", b.name) });
+                }
+                if msl && pipe.is_none() {
+                    // compare with the input declaration instead
+                    let want = match r.arr {
+                        ArrLen::No => Some(1),
+                        ArrLen::Sized(n) => Some(n),
+                        ArrLen::Unsized => None,
+                    };
+                    if b.descriptor_count != want {
+                        fails.push(Fail { class: "count-mismatch", detail: format!("`{}` declared with {:?} but descriptor_count {:?}", b.name, r.arr, b.descriptor_count) });
+                    }
+                }
+            }
+        }
+        // ---- inline constant block of the group
+        let members: Vec<&SrcDecl> = emitted.decls.iter().filter(|d| d.in_struct.as_deref() == Some(&format!("InlineDescriptor{}", g))).collect();
+        let holder = emitted.decls.iter().find(|d| d.in_struct.is_none() && d.name == format!("g_inlineDescriptor{}", g));
+        match (&group.inline_constants, holder) {
+            (None, None) => {
+                if !members.is_empty() {
+                    fails.push(Fail { class: "inline-block-mismatch", detail: format!("group {} has inline members but no inline constant buffer", g) });
+                }
+            }
+            (Some(c), Some(h)) => {
+                if h.vk != Some((c.api_location, g)) || c.size_in_bytes as usize != 8 * members.len() {
+                    fails.push(Fail { class: "inline-block-mismatch", detail: format!("group {} inline constants {}/{} but emitted {:?} with {} members", g, c.api_location, c.size_in_bytes, h.annots, members.len()) });
+                }
+            }
+            (a, b) => fails.push(Fail { class: "inline-block-mismatch", detail: format!("group {} inline constants {:?} but emitted holder {:?}", g, a.is_some(), b.is_some()) }),
+        }
+    }
+    hist.add(&format!("entries={}", nentries.min(8)));
+
+    // ---- 2. every externally bound declaration of the emitted source has exactly one entry
+    for d in &emitted.decls {
+        let external = if msl {
+            d.in_struct.as_deref().is_some_and(|s| s.starts_with("ArgumentBuffer"))
+        } else if d.in_struct.is_some() {
+            true // members of InlineDescriptor<n>
+        } else if d.name.starts_with("g_inlineDescriptor") {
+            false // described by BindGroup::inline_constants
+        } else {
+            d.ty == "cbuffer" || (!d.is_static && is_resource_type(&d.ty))
+        };
+        if !external {
+            continue;
+        }
+        let n = entries_by_name.get(&d.name).copied().unwrap_or(0);
+        if n != 1 {
+            if msl && n == 0 {
+                fails.push(Fail { class: "msl-name-renamed", detail: format!("argument buffer member `{}` has no metadata entry of that name", d.name) });
+            } else if d.arr == Some(ArrLen::Unsized) && n == 0 {
+                fails.push(Fail { class: "unsized-array-unbound", detail: format!("`{} {}[]` is declared in the emitted source without annotation and without metadata entry", d.ty, d.name) });
+            } else {
+                fails.push(Fail { class: "declaration-entries", detail: format!("externally bound `{}` has {} metadata entries", d.name, n) });
+            }
+        }
+    }
+
+    // ---- 3. stages
+    let mut s_parts = Vec::new();
+    let mut f_parts = Vec::new();
+    let want_stages: Vec<&XFn> = pipe.map(|p| p.stages.iter().map(|k| &case.entries[*k]).collect()).unwrap_or_default();
+    if out.stages.len() != want_stages.len() {
+        fails.push(Fail { class: "stage-count", detail: format!("{} stages reported for {} stage properties", out.stages.len(), want_stages.len()) });
+    }
+    for (k, st) in out.stages.iter().enumerate() {
+        let kind = format!("{:?}", st.stage);
+        s_parts.push(format!("{}:{}:{}", kind, st.entry_point, threads_str(st.thread_group_size)));
+        if let Some(w) = want_stages.get(k) {
+            if w.stage.as_deref() != Some(kind.as_str()) || w.threads != st.thread_group_size {
+                fails.push(Fail { class: "stage-record", detail: format!("stage {} reported as {} {:?}, declared {:?} {:?}", k, kind, st.thread_group_size, w.stage, w.threads) });
+            }
+        }
+        let found: Vec<&SrcFunc> = emitted.funcs.iter().filter(|f| f.name == st.entry_point && f.has_body).collect();
+        if found.len() != 1 {
+            f_parts.push(format!("!missing({})", st.entry_point));
+            let src_name = want_stages.get(k).map(|w| w.name.as_str()).unwrap_or("");
+            fails.push(Fail {
+                class: if found.is_empty() && !msl && src_name == st.entry_point { "entry-renamed" } else { "entry-not-defined" },
+                detail: format!("stage {} reports entry point `{}` but the emitted source defines {} function(s) of that name (functions: {})",
+                    kind, st.entry_point, found.len(),
+                    emitted.funcs.iter().map(|f| f.name.as_str()).collect::<Vec<_>>().join(" ")),
+            });
+            continue;
+        }
+        let f = found[0];
+        if msl {
+            let total = st.thread_group_size.map(|(x, y, z)| x as u64 * y as u64 * z as u64);
+            f_parts.push(format!("{}:{}", f.name, f.threads.map(|t| t.0.to_string()).unwrap_or_else(|| "-".into())));
+            if f.threads.map(|t| t.0) != total {
+                fails.push(Fail { class: "thread-group-size", detail: format!("`{}` reported {:?} but emitted total {:?}", f.name, st.thread_group_size, f.threads) });
+            }
+            let want_attr = match kind.as_str() {
+                "Compute" => "kernel",
+                "Vertex" => "vertex",
+                "Pixel" => "fragment",
+                "Task" => "object",
+                _ => "mesh",
+            };
+            if f.stage_attr.as_deref() != Some(want_attr) {
+                fails.push(Fail { class: "entry-stage-kind", detail: format!("`{}` reported as {} but emitted with [[{:?}]]", f.name, kind, f.stage_attr) });
+            }
+            // every argument buffer is bound at [[buffer(group)]]
+            for (g, _) in out.metadata.bind_groups.iter().enumerate() {
+                let want = (format!("ArgumentBuffer{}", g), format!("set{}", g), g as u32);
+                if !f.buffers.contains(&want) {
+                    fails.push(Fail { class: "argument-buffer-param", detail: format!("`{}` has no `{}& {} [[buffer({})]]` parameter: {:?}", f.name, want.0, want.1, g, f.buffers) });
+                }
+            }
+            if f.buffers.len() != out.metadata.bind_groups.len() {
+                fails.push(Fail { class: "argument-buffer-param", detail: format!("`{}` has {} buffer parameters for {} groups", f.name, f.buffers.len(), out.metadata.bind_groups.len()) });
+            }
+        } else {
+            let t = f.threads.map(|(x, y, z)| (x as u32, y as u32, z as u32));
+            f_parts.push(format!("{}:{}", f.name, threads_str(t)));
+            if t != st.thread_group_size {
+                // the function of that name is another function when the entry point itself was renamed
+                let prefix = format!("{}_", st.entry_point);
+                let renamed = emitted.funcs.iter().any(|x| x.name.starts_with(&prefix) && x.threads.map(|(a, b, c)| (a as u32, b as u32, c as u32)) == st.thread_group_size);
+                fails.push(Fail {
+                    class: if renamed { "entry-renamed" } else { "thread-group-size" },
+                    detail: format!("stage {} reports entry point `{}` {:?} but the emitted function of that name has numthreads {:?} (functions: {})",
+                        kind, f.name, st.thread_group_size, f.threads,
+                        emitted.funcs.iter().map(|f| f.name.as_str()).collect::<Vec<_>>().join(" ")),
+                });
+            }
+        }
+    }
+
+    // ---- observation
+    let mut a_parts: Vec<String> = Vec::new();
+    for d in &emitted.decls {
+        if d.in_struct.is_none() && d.inline_init.is_some() {
+            continue; // listed through its InlineDescriptor member
+        }
+        for a in &d.annots {
+            match &d.in_struct {
+                Some(s) => a_parts.push(format!("{}=>{}/{}", d.name, s, a)),
+                None => a_parts.push(format!("{}=>{}", d.name, a)),
+            }
+        }
+    }
+    if msl {
+        // [[buffer(i)]] parameters, once per group when every entry function agrees
+        let mut seen: BTreeSet<(String, u32)> = BTreeSet::new();
+        for f in &emitted.funcs {
+            for (_, pname, n) in &f.buffers {
+                seen.insert((pname.clone(), *n));
+            }
+        }
+        for (pname, n) in seen {
+            a_parts.push(format!("{}=>[[buffer({})]]", pname, n));
+        }
+    }
+    a_parts.sort();
+    let obs = format!("M[{}] A[{}] S[{}] F[{}]", show_meta(&out.metadata), a_parts.join(";"), s_parts.join(","), f_parts.join(","));
+    (obs, fails)
+}
+
+fn parse_mode(s: &str) -> Option<Mode> {
+    if s == "all" {
+        Some(Mode::All)
+    } else if s == "nopipeline" {
+        Some(Mode::NoPipeline)
+    } else {
+        s.strip_prefix("name=").map(|n| Mode::Named(n.to_string()))
+    }
+}
+
+fn run_case(case: &Case, tgt: Tgt, mode: &Mode, out: &mut Out, hist: &mut Hist) {
+    let req = format!("C05.meta\t{}\t{}\t{}", tgt.name(), mode.show(), case.encode());
+    let src = case.render();
+    hist.add(&format!("target={}", tgt.name()));
+    hist.add(&format!("mode={}", match mode { Mode::All => "all", Mode::Named(_) => "named", Mode::NoPipeline => "nopipeline" }));
+    hist.add(&format!("resources={}", case.res.len()));
+    hist.add(&format!("pipes={}", case.pipes.len()));
+    for r in &case.res {
+        hist.add(&format!("kind={}", r.kind));
+        if r.arr == ArrLen::Unsized { hist.add("variant=unsized-array"); }
+        if r.stat { hist.add("variant=static-object"); }
+        if r.bl { hist.add("variant=bindless"); }
+        if r.ss { hist.add("variant=static-sampler"); }
+        if name_class(&r.name) != "plain" { hist.add("variant=special-resource-name"); }
+    }
+    match compile_raw(&src, tgt, mode) {
+        Raw::Err(e) => {
+            let obs = if e == "Shader does not contain a single pipeline" {
+                "err:none".to_string()
+            } else if e.starts_with("Shader does not contain the pipeline: ") {
+                "err:unknown".to_string()
+            } else {
+                format!("err:{}", one_line(&e.chars().take(100).collect::<String>()))
+            };
+            hist.add("outcome=error");
+            let skip = !(obs == "err:none" || obs == "err:unknown");
+            out.case(&req, &obs, if skip { "SKIP:compile error" } else { "ok" });
+        }
+        Raw::Panic(p) => {
+            hist.add("outcome=panic");
+            // a panic is a C08 matter; it is reported here only as skipped input
+            out.case(&req, &format!("panic:{}", p), "SKIP:panic (C08)");
+        }
+        Raw::Ok(ps) => {
+            hist.add("outcome=ok");
+            let pipes: Vec<Option<&XPipe>> = match mode {
+                Mode::All => case.pipes.iter().map(Some).collect(),
+                Mode::Named(n) => vec![case.pipes.iter().find(|p| &p.name == n)],
+                Mode::NoPipeline => vec![None],
+            };
+            let mut fails: Vec<Fail> = Vec::new();
+            let mut obs = Vec::new();
+            if pipes.len() != ps.len() {
+                fails.push(Fail { class: "pipeline-count", detail: format!("{} outputs for {} pipelines", ps.len(), pipes.len()) });
+            }
+            for (p, o) in pipes.iter().zip(ps.iter()) {
+                let (ob, mut fl) = judge(case, tgt, *p, o, hist);
+                obs.push(ob);
+                fails.append(&mut fl);
+            }
+            let pick = fails.iter().find(|f| !RECORDED.contains(&f.class)).or(fails.first());
+            let oracle = match pick {
+                None => "ok".to_string(),
+                Some(f) => {
+                    hist.add(&format!("fail={}", f.class));
+                    format!("FAIL:{} {}", f.class, f.detail)
+                }
+            };
+            out.case(&req, &obs.join(" ## "), &oracle);
+        }
+    }
+}
+
+// ------------------------------------------------------------------------------------------------ generation
+
+/// variants that exercise the known weak spots (each rare, so that most cases are clean)
+fn mutate(case: &mut Case, rng: &mut Rng, hist: &mut Hist) {
+    // an entry point whose name is reserved in a target language
+    if !case.entries.is_empty() && rng.chance(1, 24) {
+        let k = rng.below(case.entries.len() as u64) as usize;
+        let st = case.entries[k].stage.clone().unwrap_or_default();
+        if st != "Mesh" && st != "Task" {
+            case.entries[k].name = (*rng.pick(&["float16_t", "int64_t", "uint64_t"])).to_string();
+            hist.add("variant=reserved-entry-name");
+        }
+    }
+    // overloaded helpers `a`, `a` are emitted as `a_0`, `a_1`; an entry point called `a_0` then has to move
+    if case.helpers.len() >= 2 && !case.entries.is_empty() && rng.chance(1, 24) {
+        let k = rng.below(case.entries.len() as u64) as usize;
+        if case.entries[k].stage.as_deref() == Some("Compute") {
+            case.helpers[0].name = "a".to_string();
+            case.helpers[1].name = "a".to_string();
+            case.entries[k].name = "a_0".to_string();
+            hist.add("variant=overload-clash-entry-name");
+        }
+    }
+    // a resource whose name is reserved on Metal only
+    if !case.res.is_empty() && rng.chance(1, 24) {
+        let k = rng.below(case.res.len() as u64) as usize;
+        case.res[k].name = (*rng.pick(&["main", "kernel", "vertex", "fragment"])).to_string();
+    }
+    // an unsized array
+    if !case.res.is_empty() && rng.chance(1, 24) {
+        let k = rng.below(case.res.len() as u64) as usize;
+        let r = &mut case.res[k];
+        if r.kind != "cbuffer" && r.kind != "ConstantBuffer" && !r.ss && !r.kind.contains("Address") {
+            r.arr = ArrLen::Unsized;
+        }
+    }
+    // a static global of resource type
+    if !case.res.is_empty() && rng.chance(1, 24) {
+        let k = rng.below(case.res.len() as u64) as usize;
+        let r = &mut case.res[k];
+        if r.kind.starts_with("Texture") && !r.bl && r.group.is_none() {
+            r.stat = true;
+        }
+    }
+    // kinds progen does not draw
+    if !case.res.is_empty() && rng.chance(1, 8) {
+        let k = rng.below(case.res.len() as u64) as usize;
+        let r = &mut case.res[k];
+        if r.kind.starts_with("Texture") {
+            r.kind = rng.pick(EXTRA_KINDS).0.to_string();
+        }
+    }
+}
+
+pub fn run(args: &Args, out: &mut Out) {
+    let mut hist = Hist::default();
+    if args.extra.first().map(|s| s.as_str()) == Some("dump") {
+        // harness c05 dump <file> <target> [mode]: print what compile() returns (debugging aid)
+        let src = std::fs::read_to_string(&args.extra[1]).unwrap_or_default();
+        let tgt = Tgt::parse(&args.extra[2]).unwrap_or(Tgt::Dx);
+        let mode = args.extra.get(3).and_then(|m| parse_mode(m)).unwrap_or(Mode::All);
+        match compile_raw(&src, tgt, &mode) {
+            Raw::Ok(ps) => {
+                for p in ps {
+                    println!("=== metadata {:?}\n{}", p.metadata, String::from_utf8_lossy(&p.data));
+                }
+            }
+            Raw::Err(e) => println!("ERR {}", e),
+            Raw::Panic(p) => println!("PANIC {}", p),
+        }
+        return;
+    }
+    if let Some(lines) = args.request_lines() {
+        for line in lines {
+            let f: Vec<&str> = line.split('\t').collect();
+            if f.len() != 8 || f[0] != "C05.meta" {
+                continue;
+            }
+            let (Some(t), Some(m), Some(case)) = (Tgt::parse(f[1]), parse_mode(f[2]), Case::decode(&f[3..])) else {
+                out.case(&line, "bad-request", "SKIP:bad request");
+                continue;
+            };
+            if args.extra.first().map(|s| s.as_str()) == Some("show") {
+                eprintln!("{}", case.render());
+            }
+            run_case(&case, t, &m, out, &mut hist);
+        }
+        out.stat(&format!("{{\"mode\":\"replay\",\"hist\":{}}}", hist.json()));
+        return;
+    }
+    let n = args.n.unwrap_or(if args.thorough() { 2500 } else { 130 });
+    let mut rng = Rng::new(args.seed);
+    for _ in 0..n {
+        let seed = rng.next() >> 16;
+        let mut prng = Rng::new(seed);
+        // mesh entry points make every non-mesh pipeline of the file fail on Metal (InvalidPipelineForMeshIntrinsic):
+        // keep them to a third of the programs
+        let allow_mesh = prng.chance(1, 3);
+        let prog = progen::gen_program(&mut prng, &progen::GenOpts { max_resources: 8, allow_mesh, ..Default::default() });
+        let mut case = from_program(&prog);
+        mutate(&mut case, &mut prng, &mut hist);
+        for tgt in ALL_TARGETS {
+            run_case(&case, tgt, &Mode::All, out, &mut hist);
+            if !case.pipes.is_empty() {
+                let k = rng.below(case.pipes.len() as u64) as usize;
+                run_case(&case, tgt, &Mode::Named(case.pipes[k].name.clone()), out, &mut hist);
+            }
+            run_case(&case, tgt, &Mode::NoPipeline, out, &mut hist);
+        }
+    }
+    // name sweep: every name the target languages reserve, as an entry point and as a resource name
+    // (most are rejected by the front end: those cases are skipped; the accepted ones must keep metadata and source in step)
+    let repo = std::env::var("VERIF_REPO").unwrap_or_else(|_| "/repo".into());
+    let mut swept = 0;
+    for (file, tgts) in [("hlsl/src/names.rs", vec![Tgt::Dx, Tgt::VkBa]), ("msl/src/names.rs", vec![Tgt::Msl])] {
+        let names = reserved_names(&format!("{}/{}", repo, file));
+        let step = if args.thorough() { 1 } else { 4 };
+        let start = (args.seed % step as u64) as usize;
+        for name in names.iter().skip(start).step_by(step) {
+            if !name.chars().all(|c| c.is_ascii_alphanumeric() || c == '_') {
+                continue;
+            }
+            for tgt in &tgts {
+                for role in 0..2 {
+                    let mut case = Case {
+                        nstatics: 0,
+                        res: vec![XRes { name: "g_t".into(), kind: "Texture2D".into(), group: None, arr: ArrLen::No, ss: false, bl: false, stat: false }],
+                        helpers: vec![],
+                        entries: vec![XFn { name: "cs_0".into(), stage: Some("Compute".into()), uses: vec![0], calls: vec![], statics: vec![], threads: Some((8, 4, 1)) }],
+                        pipes: vec![XPipe { name: "P0".into(), dflt: None, stages: vec![0] }],
+                    };
+                    if role == 0 {
+                        case.entries[0].name = name.clone();
+                    } else {
+                        case.res[0].name = name.clone();
+                    }
+                    hist.add("source=name-sweep");
+                    swept += 1;
+                    run_case(&case, *tgt, &Mode::Named("P0".into()), out, &mut hist);
+                }
+            }
+        }
+    }
+    out.stat(&format!("{{\"programs\":{},\"name_sweep_cases\":{},\"hist\":{}}}", n, swept, hist.json()));
+}
+
+/// the string literals of `RESERVED_NAMES` in a names.rs
+fn reserved_names(path: &str) -> Vec<String> {
+    let text = std::fs::read_to_string(path).unwrap_or_default();
+    let Some(start) = text.find("RESERVED_NAMES") else { return Vec::new() };
+    let Some(open) = text[start..].find("&[\n").or_else(|| text[start..].find("= &[")) else { return Vec::new() };
+    let body = &text[start + open..];
+    let end = body.find("];").unwrap_or(body.len());
+    let mut out = Vec::new();
+    let mut rest = &body[..end];
+    while let Some(q) = rest.find('"') {
+        let after = &rest[q + 1..];
+        let Some(q2) = after.find('"') else { break };
+        out.push(after[..q2].to_string());
+        rest = &after[q2 + 1..];
+    }
+    out
 }
